@@ -6,6 +6,11 @@ props = [json.loads(l) for l in open(os.path.join(V, 'properties.jsonl'))]
 
 # id -> (technique, level text, level note, design ref)
 CLAIMED = {
+ 'C05': ("mutation-based and random byte-string generation (proptest) with a differential oracle against wasmparser::Validator; child-process isolation for stack overflow",
+         "Random byte strings, byte- and structure-level mutants of generated and corpus modules, truncations, and deep-nesting modules are parsed under both configurations; any unwind is a violation, and walrus's accept/reject decision must equal the reference validator's under the feature set walrus documents for that configuration. Deep inputs are parsed (and emitted) on the 8 MiB main-thread stack of a child process: death by signal is a violation, a watchdog expiry is inconclusive. 'Never hangs' is only observable as that watchdog.",
+         "The supported feature set is re-stated in the harness (optable::walrus_features); wasmparser is the arbiter of validity; OOM is not in scope.",
+         "DESIGN.md §4 C05"),
+
  'C02': ("property-based generation of modules x passes x well-formed API edit scripts (proptest), validity oracle (wasmparser::Validator) + panic capture",
          "Accepted modules are parsed, edited through the public builder/edit API by generated well-formed edit scripts, optionally GC'd before and/or after the edits, and emitted under the name/producers switch combinations; any unwind and any output the reference validator rejects under walrus's feature set is a violation. Exploration over sampled modules and scripts.",
          "Edits are well-formed by construction (back-links maintained as documented); DWARF generation is exercised under C10.",
